@@ -3,7 +3,7 @@
 // The controlled scheduler only pre-empts at the schedule points compiled into the library; races inside a
 // lock-free step (between two atomics of one function) only show under true parallelism.  The oracle is purely
 // logical (holder counters checked inside every critical section, state word at the end), never a time bound;
-// a case that does not finish within 60 s is reported as "threads still blocked" (replayed 3x by the check).
+// a case in which no lock attempt finishes for 30 s is reported as "threads still blocked" (replayed 3x by the check).
 //   -DSTRESS_PROP=1 : C01 (impl 0 mutex, 1 mutex(contending), 2 spinlock, 3 ticket_spinlock, 4 qspinlock)
 //   -DSTRESS_PROP=6 : C06 (impl 0 rwlock, 1 qrwlock)
 #include "pbt.h"
@@ -41,6 +41,7 @@ struct Shared {
     std::atomic<long> sections{0}, failed{0}, overlapped_readers{0};
     std::mutex mu; std::string first_violation;
     std::atomic<int> running{0};
+    std::atomic<long> progress{0};       // lock attempts finished (either way)
     void violation(const std::string& m) { std::lock_guard<std::mutex> g(mu); if (first_violation.empty()) first_violation = m; }
 };
 
@@ -101,6 +102,7 @@ void worker(Shared& S, Locks& L, const std::vector<std::vector<long>>& prog, lon
 #else
             bool writer = true;
 #endif
+            S.progress++;
             S.ev(tid, 'a', kind * 1000 + (tmo < 0 ? 999 : tmo), L.word());
             if (L.acquire(kind, tmo) != 0) { S.ev(tid, 'f', kind, L.word()); S.failed++; if (body == 1) photon::thread_yield(); continue; }
             S.ev(tid, 'g', kind, L.word());
@@ -129,10 +131,12 @@ Outcome run_case(const Case& c) {
     Shared S; Locks L; L.impl = c.cfg.at(1);
     std::atomic<bool> case_done{false};
     std::thread watchdog([&]() {
-        for (int i = 0; i < 6000 && !case_done; i++) std::this_thread::sleep_for(std::chrono::milliseconds(10));
+        // no lock attempt finished anywhere for 30 s (a busy machine only makes things slow, it does not stop them)
+        long last = -1; int still = 0;
+        while (!case_done && still < 3000) { std::this_thread::sleep_for(std::chrono::milliseconds(10)); long p = S.progress.load(); if (p != last) { last = p; still = 0; } else still++; }
         if (case_done) return;
         if (getenv("STRESS_DUMP")) { long e = S.evseq.load(); long lastg = 0; for (long q = std::max<long>(0, e - (1 << 18) + 8); q < e; q++) if (S.ring[q & ((1 << 18) - 1)].what == 'r') lastg = q; for (long q = std::max<long>(0, lastg - 120); q < std::min(e, lastg + 60); q++) { auto& x = S.ring[q & ((1 << 18) - 1)]; fprintf(stderr, "[ev] %ld t%d %c kind=%ld word=%ld\n", x.seq, x.tid, x.what, x.kind, x.st); } }
-        vf::finish_now(Outcome::violation("threads still blocked after 60 s (" + std::to_string(S.running.load()) + " of them; " + std::to_string(S.sections.load()) + " sections completed): lost wake-up or deadlock" +
+        vf::finish_now(Outcome::violation("threads still blocked: no lock attempt finished for 30 s (" + std::to_string(S.running.load()) + " of them; " + std::to_string(S.sections.load()) + " sections completed): lost wake-up or deadlock" +
                                           (S.first_violation.empty() ? "" : "; earlier: " + S.first_violation)));
     });
     std::vector<std::thread> ths;
